@@ -2,6 +2,5 @@ SPECIFICATION MCSpec
 INVARIANT MergeSound
 INVARIANT Partition
 INVARIANT RewireSound
-INVARIANT NoDuplicateKept
 PROPERTY Terminates
 CHECK_DEADLOCK FALSE
